@@ -17,8 +17,10 @@ import (
 	"fmt"
 	"hash/fnv"
 	"math/big"
+	mrand "math/rand/v2"
 	"net"
 	"net/netip"
+	"reflect"
 	"strings"
 	"sync"
 	"time"
@@ -26,7 +28,10 @@ import (
 	"github.com/AdguardTeam/AdGuardDNS/internal/dnsserver"
 	"github.com/AdguardTeam/AdGuardDNS/verif/kernel"
 	"github.com/AdguardTeam/AdGuardDNS/verif/simnet"
+	"github.com/ameshkov/dnscrypt/v2"
 	"github.com/miekg/dns"
+	"golang.org/x/crypto/curve25519"
+	"golang.org/x/crypto/nacl/box"
 )
 
 // ---- certificate (one per process, valid at bubble time) ----
@@ -258,6 +263,7 @@ const (
 	addrDoT  = "198.18.0.2:853"
 	addrDoH  = "198.18.0.3:443"
 	addrDoQ  = "198.18.0.4:853"
+	addrDC   = "198.18.0.5:5443"
 )
 
 // set B: a second, identically configured group of servers that stays fresh.
@@ -284,12 +290,18 @@ type servers struct {
 	p       *pipeline
 	metrics *metricsListener
 	all     []dnsserver.Server
+
+	// dcCert is the certificate of the DNSCrypt server, which a client
+	// normally fetches with a plain TXT query.
+	dcCert     *dnscrypt.Cert
+	dcProvider string
 }
 
 type serverOpts struct {
 	maxUDPRespSize uint16
 	pipelineLimit  uint
 	dot, doh, doq  bool
+	dnscrypt       bool
 	second         bool
 
 	// setB starts the second group of servers (fresh twin).
@@ -351,6 +363,30 @@ func startServers(s *kernel.Sim, n *simnet.Net, p *pipeline, o serverOpts) (sv *
 			ConfigBase: base("doq", addrDoQ),
 			TLSConfig:  qc,
 		}))
+	}
+
+	if o.dnscrypt {
+		rc, err := dnscrypt.GenerateResolverConfig("2.dnscrypt-cert.sim.test", nil)
+		if err != nil {
+			panic(err)
+		}
+		cert, err := rc.CreateCert()
+		if err != nil {
+			panic(err)
+		}
+		sv.dcCert, sv.dcProvider = cert, rc.ProviderName
+		dcConf := dnsserver.ConfigDNSCrypt{
+			ConfigBase:           base("dnscrypt", addrDC),
+			DNSCryptResolverCert: cert,
+			DNSCryptProviderName: rc.ProviderName,
+		}
+		// The configured maximum UDP response size, where the server's
+		// configuration has a place for it (set by name, so that the harness
+		// also builds against a tree without the field).
+		if f := reflect.ValueOf(&dcConf).Elem().FieldByName("MaxUDPRespSize"); f.IsValid() && o.maxUDPRespSize > 0 {
+			f.SetUint(uint64(o.maxUDPRespSize))
+		}
+		sv.all = append(sv.all, dnsserver.NewServerDNSCrypt(dcConf))
 	}
 
 	if o.setB {
@@ -454,4 +490,43 @@ func endOf(err error) string {
 	}
 
 	return "err:" + s
+}
+
+
+// ---- DNSCrypt client ----
+
+// dcClient seals and opens DNSCrypt messages for one client key pair.
+type dcClient struct {
+	cert   *dnscrypt.Cert
+	pk     [32]byte
+	shared [32]byte
+}
+
+func newDCClient(cert *dnscrypt.Cert, seed uint64) (c *dcClient) {
+	c = &dcClient{cert: cert}
+	var sk [32]byte
+	r := mrand.New(mrand.NewPCG(seed, 0xdc))
+	for i := range sk {
+		sk[i] = byte(r.IntN(256))
+	}
+	curve25519.ScalarBaseMult(&c.pk, &sk)
+	box.Precompute(&c.shared, &cert.ResolverPk, &sk)
+
+	return c
+}
+
+func (c *dcClient) seal(raw []byte) (b []byte) {
+	q := dnscrypt.EncryptedQuery{EsVersion: c.cert.EsVersion, ClientMagic: c.cert.ClientMagic, ClientPk: c.pk}
+	b, err := q.Encrypt(raw, c.shared)
+	if err != nil {
+		panic(err)
+	}
+
+	return b
+}
+
+func (c *dcClient) open(b []byte) (raw []byte, err error) {
+	r := dnscrypt.EncryptedResponse{EsVersion: c.cert.EsVersion}
+
+	return r.Decrypt(b, c.shared)
 }
